@@ -239,6 +239,9 @@ class ndpoly(numpy.ndarray):  # pylint: disable=invalid-name
                     f"Method '{method}' of ufunc '{ufunc}' not supported."
                 )
             ufunc = mappings[ufunc]
+            # ufunc.reduce/accumulate work along axis 0 unless told otherwise,
+            # the functions they map to would flatten
+            kwargs.setdefault("axis", 0)
         elif method != "__call__":
             raise FeatureNotSupported(f"Method '{method}' not supported.")
         if ufunc not in numpoly.UFUNC_COLLECTION:
